@@ -42,6 +42,13 @@ def instances(tier, seed):
     add("place:S12:ch2-sym3->CFF:axis1", struct='S12', repl='ch2-sym3->CFF', axes=[1], other=(0.2, 0, 0.7), symmetric=True, cost=40)
     add("place:S10:trig-sym4->BCl3:axis2:triclinic:stretched", struct='S10', repl='trig-sym4->BCl3', axes=[2], other=(0.2, 0.9, 0), symmetric=True,
         bound=0.1, cost=60)
+    # partial replacement: the drawn subset comes in any order (all orders explored), copies have different orientations
+    add("place:S2:chiral4->CHSP:fraction0.9:triclinic", struct='S2', repl='chiral4->CHSP', axes=[0], other=(0, 0.2, 0.6), fraction=0.9, cost=60)
+    add("place:S4:collinear3->OCSN:fraction0.9", struct='S4', repl='collinear3->OCSN', axes=[1], other=(0.3, 0, 0.8), fraction=0.9, cost=90)
+    # replacement reaching further than one cell length from the anchor atom (thin cell)
+    # (a one-atom search pattern fixes no orientation and the minimum-image convention does not apply to a 17 A arm in a 6.4 A cell: only
+    # the in-cell clause and the bookkeeping are decided here)
+    add("place:S6:single->FCl-long:axis0", struct='S6', repl='single->FCl-long', axes=[0], other=(0, 0.3, 0.4), bound=1e9, cost=20)
     # joint rigid motion of both patterns
     for k, jp in enumerate(['p3', 'flipy', 'rz90']):
         sname, rp = [('S1', 'chiral4->CHSP'), ('S5', 'pair->CFO'), ('S2', 'chiral4->big')][k]
@@ -67,6 +74,7 @@ def body(ctx, p):
     info = check_placement(ctx, p, R, bound=p.get('bound'))
     if info is not None:
         check_bystanders(ctx, p, R)
+    check_patterns_untouched(ctx, R)
 
 
 SELFTESTS = [
